@@ -187,6 +187,21 @@ def enumerate_stream(run, module, what, sig_of, env=None, timeout=900, name="enu
     return classes
 
 
+def tlaps(name, what):
+    """machine-check spec/proofs/<name> from scratch (no cached fingerprints); returns the number of obligations proved"""
+    from vlib import sh, SPEC
+    import re
+    import shutil
+    cache = os.path.join(SPEC, "proofs", ".tlacache")
+    shutil.rmtree(cache, ignore_errors=True)
+    rc, out = sh(["timeout", "600", "tlapm", "--threads", "8", "-I", "..", name], cwd=os.path.join(SPEC, "proofs"), timeout=700)
+    shutil.rmtree(cache, ignore_errors=True)
+    m = re.search(r"All (\d+) obligations proved", out)
+    if not m:
+        raise ToolError("TLAPS proof of %s (spec/proofs/%s) failed:\n%s" % (what, name, out[-1500:]))
+    return int(m.group(1))
+
+
 def replay_pipeline(run, what, case, extra_replay=None):
     """re-run one emitted case (a --replay file) through the harness"""
     exp_path = run.path("replay.exp.ndjson")
@@ -354,7 +369,7 @@ def check_C11(run, replay):
                 "CompactPreservesSemantics / PrevLinksWellFounded of Build.tla against Contract.tla on each and replays each "
                 "into from_root (verdict, error kind, renumbering-invariant compact game, evaluation and 3-iteration solves "
                 "on accepted trees); (b) U-edit: seeded valid trees (depth<=5) x every single edit of the catalogue at every "
-                "node, judged by the same TLA+ operators; distinct by canonical JSON; every tree exercises construction; edits that repeat an action name apart / at every node of the infoset; num_infosets() against the specified count")
+                "node, judged by the same TLA+ operators; distinct by canonical JSON; every tree exercises construction; edits that repeat an action name apart / at every node of the infoset; num_infosets() against the specified count; STRETCH: the same trees with one weight of every chance node x 2^70 (verdict unchanged: spec/proofs/StretchProof.tla, TLAPS)")
     run.assumptions = ["integer chance weights (so equal distributions normalise to identical f64 vectors)",
                        "R3s (one-outcome chance node sharing a label) and R8 (non-finite payoff) acceptances are listed known findings"]
     if replay:
@@ -363,6 +378,8 @@ def check_C11(run, replay):
         return
     of = 16 if run.tier == "quick" else 1
     run.exhaustive = (of == 1)
+    # the argument behind the STRETCH replay, for every length, coordinate and constant (TLAPS)
+    run.notes["tlaps_obligations_proved"] = tlaps("StretchProof.tla", "proportionality under stretching one coordinate")
     run.notes["tiny_classes"] = enumerate_stream(run, "MC_Build", "build", mismatch_sig("build"), env={"SLICE": run.seed % of, "OF": of},
                                                  timeout=6000, name="tiny")
     if only_tiny:
@@ -580,17 +597,7 @@ def check_C09(run, replay):
     res = tlc("MC_Stop", timeout=600)
     run.add_tlc(res)
     # unbounded: the TLAPS proof of the same rule for every budget, bound sequence and threshold
-    from vlib import sh, SPEC
-    import shutil
-    cache = os.path.join(SPEC, "proofs", ".tlacache")
-    shutil.rmtree(cache, ignore_errors=True)
-    rc, out = sh(["timeout", "600", "tlapm", "--threads", "8", "-I", "..", "StopProof.tla"], cwd=os.path.join(SPEC, "proofs"), timeout=700)
-    shutil.rmtree(cache, ignore_errors=True)
-    import re as _re
-    m = _re.search(r"All (\d+) obligations proved", out)
-    if not m:
-        raise ToolError("TLAPS proof of the stop rule (spec/proofs/StopProof.tla) failed:\n" + out[-1500:])
-    run.notes["tlaps_obligations_proved"] = int(m.group(1))
+    run.notes["tlaps_obligations_proved"] = tlaps("StopProof.tla", "the stop rule")
     trace = run.path("stop.ndjson")
     n = 10 if run.tier == "quick" else 150
     args = ["record", "stop", "--seed", run.seed, "--n", n, "--out", trace]
